@@ -1388,6 +1388,13 @@ func main() {
 	writeIfChanged(filepath.Join(*out, "GenLockSites.v"), w.Bytes())
 	fmt.Printf("go2v: GenLockSites.v %d access sites of %d protected fields, %d lock wrappers\n", nls, len(lkFields), nlw)
 
+	// GenSyncPools.v (C04): every sync.Pool and every Get / Put / put-wrapper call site (syncpools.go)
+	w.Reset()
+	fmt.Fprintf(&w, header, *repo)
+	nspd, nsps, nspw := syncPoolSitesSafe(&w, *repo)
+	writeIfChanged(filepath.Join(*out, "GenSyncPools.v"), w.Bytes())
+	fmt.Printf("go2v: GenSyncPools.v %d sync.Pools, %d Get / Put sites, %d put wrappers\n", nspd, nsps, nspw)
+
 	// GenFrameUse.v (C12): uses of a frame relative to its hand-over, per function (frameuse.go)
 	w.Reset()
 	fmt.Fprintf(&w, header, *repo)
